@@ -160,7 +160,15 @@ func runParser(ctx *bex.Ctx) {
 			}
 		}
 	}
-	ctx.SpaceDone(fmt.Sprintf("every sequence of <= %d tokens over a %d-token alphabet, 5 longer programs cut at every token and followed by trailing tokens; generic parser, value Generate and value Generate in comfort mode; all schedules", maxLen, len(tokens)))
+	// tight spellings in which comfort mode makes more tokens than the input has characters (implicit
+	// multiplications), behind a token at which parsing stops at once: the tokenizer is many tokens ahead
+	for _, head := range []string{"k", ")", "1 2", "zz(", "a+"} {
+		for _, body := range []string{"(2a+3b)(4c+5d)(6e+7f)", "2a3b4c5d6e7f8a9b2a3b", "(a)(b)(a)(b)(a)(b)(a)(b)", "2(3(4(5(6(7(8(9(a))))))))2a2a", "a²b²a²b²a²b²a²b²"} {
+			check(head + body)
+			check(head + body + body + body)
+		}
+	}
+	ctx.SpaceDone(fmt.Sprintf("every sequence of <= %d tokens over a %d-token alphabet, 50 tight comfort-mode spellings with more tokens than characters behind a token at which parsing stops, 5 longer programs cut at every token and followed by trailing tokens; generic parser, value Generate and value Generate in comfort mode; all schedules", maxLen, len(tokens)))
 }
 
 // ---------------------------------------------------------------------------------------------
@@ -189,6 +197,14 @@ func pipelines(quick bool, emit func(pscenario)) {
 	// every error path of the goroutine-starting operations: arguments rejected at every position of
 	// the validation, consumers / comparators / stages that fail or return the wrong type
 	misuse := []string{
+		// a Go PANIC (not an error value) in a capture-free, impure function in front of the
+		// goroutine-starting operation: it unwinds through the operation's own frames
+		"numbers(n).map(x->slow(x)%(x-1)).multiUse({a:l->l.sum(),b:l->l.size()})",
+		"numbers(n).accept(x->slow(x)%(x-1)>=0).multiUse({a:l->l.first(),b:l->l.size()})",
+		"try numbers(n).map(x->slow(x)%(x-1)).multiUse({a:l->l.sum(),b:l->l.size()}) catch 0",
+		"numbers(n).number((i,v)->slow(v)%(v-1)).multiUse({a:l->l.sum(),b:l->l.top(1).size()})",
+		"numbers(n).map(x->slow(x)%(x-1)).merge(numbers(3),(a,b)->a<b).sum()",
+		"numbers(3).merge(numbers(n).map(x->slow(x)%(x-1)),(a,b)->a<b).sum()",
 		"numbers(n).multiUse({a:l->l.size(),b:3})",
 		"numbers(n).multiUse({a:l->l.sum(),b:l->l.size(),c:(x,y)->x})",
 		"numbers(n).multiUse({a:3,b:l->l.size()})",
@@ -352,7 +368,7 @@ func runPipelines(ctx *bex.Ctx) {
 			}
 		}
 	})
-	ctx.SpaceDone("23 misuse / error-path programs of multiUse, merge, map, accept (arguments rejected at every position of the validation, failing or wrongly typed consumers, comparators and stages) x sizes 0,1,3; 9 sources (parallel map/accept, failing elements in both phases, merge) x 14 consumers (first, top, present, indexWhere, single, ~, size, reduce, multiUse) x sizes around the switch to parallel execution; all schedules; W=2")
+	ctx.SpaceDone("29 misuse / error-path programs of multiUse, merge, map, accept (arguments rejected at every position of the validation, failing or wrongly typed consumers, comparators and stages) x sizes 0,1,3; 9 sources (parallel map/accept, failing elements in both phases, merge) x 14 consumers (first, top, present, indexWhere, single, ~, size, reduce, multiUse) x sizes around the switch to parallel execution; all schedules; W=2")
 }
 
 func copyMap(m map[string]any) map[string]any {
